@@ -118,9 +118,17 @@ def check_C01(tier, seed):
     chosen = sample(vecs, n_vec, r)
     scripts = [scen.streamdata_script(r, i, fate_vec=v) for i, v in enumerate(chosen)]
     scripts += [scen.streamdata_script(r, i) for i in range(n_rand)]
-    mcs = [("StreamData.tla", "MC_StreamData.cfg" if quick else "MC_StreamData4.cfg")]
+    # which stream's data goes first (priorities, round robin): extension, see DESIGN 0.8; the operation
+    # orders are enumerated by TLC, each is played three times on top of a random backlog
+    seqs, gst3 = V.gen("SeqGen.tla", "SeqGen_sched5.cfg" if quick else "SeqGen_sched6.cfg", "C01s")
+    for q in sample(seqs, 400 if quick else 6000, r):
+        pre = ["w%d" % r.randrange(3) for _ in range(r.choice([2, 4, 6]))]
+        scripts.append(scen.sched_script(r, len(scripts), seq=pre + list(q) + ["t"] + list(q)))
+    scripts += [scen.sched_script(r, len(scripts) + i) for i in range(300 if quick else 4000)]
+    mcs = [("StreamData.tla", "MC_StreamData.cfg" if quick else "MC_StreamData4.cfg"),
+           ("Sched.tla", "MC_Sched.cfg"), ("Sched.tla", "MC_Sched_unfair.cfg")]
     return generic("C01", tier, seed, mcs, scripts,
-                   [("streamdata", "StreamDataTrace.tla", "StreamDataTrace.cfg")],
+                   [("streamdata", "StreamDataTrace.tla", "StreamDataTrace.cfg"), ("sched", "SchedTrace.tla", "SchedTrace.cfg")],
                    ["payload is the arithmetic progression (key+offset) mod 251 per stream; content errors that are a multiple of 251 bytes apart are caught by the offset checks only",
                     "toy crypto provider; network faults are those of the simulator (drop, duplicate, delay/reorder, GSO split, link MTU, CE marks)"],
                    extra_cov={"fate_vectors_enumerated_by_tlc": len(vecs), "generator_states": gst})
@@ -234,6 +242,9 @@ def check_C12(tier, seed):
     n_rand = 900 if quick else 25000
     scripts = [scen.recovery_script(r, i, fate_vec=v) for i, v in enumerate(sample(vecs, n_vec, r))]
     scripts += [scen.recovery_script(r, len(scripts) + i) for i in range(n_rand)]
+    # a client that only acknowledges: the acknowledgement timers of the three spaces interleaved
+    scripts += [scen.ackdelay_script(r, len(scripts) + i, fate_vec=v) for i, v in enumerate(sample(vecs, 100 if quick else 1000, r))]
+    scripts += [scen.ackdelay_script(r, len(scripts) + i) for i in range(300 if quick else 3000)]
     mcs = [("Recovery.tla", "MC_Recovery4.cfg" if quick else "MC_Recovery.cfg")]
     mcs.append(("Controllers.tla", "MC_Controllers.cfg"))
     # acknowledgement generation (what loss detection feeds on): extension of the recovery specification
@@ -385,8 +396,8 @@ def replay_C08(scripts):
 
 
 def replay_C01(scripts):
-    return generic("C01", "quick", 0, [], scripts, [("streamdata", "StreamDataTrace.tla", "StreamDataTrace.cfg")], [],
-                   shards=1)
+    return generic("C01", "quick", 0, [], scripts, [("streamdata", "StreamDataTrace.tla", "StreamDataTrace.cfg"),
+                                                     ("sched", "SchedTrace.tla", "SchedTrace.cfg")], [], shards=1)
 
 
 def replay_C07(scripts):
